@@ -75,6 +75,9 @@ func (f *frame) atCallAsserts(cc *ssa.CallCommon, pos token.Pos) (matched []*AtC
 		}
 		matched = append(matched, ac)
 		env := f.pointEnv(f.heap)
+		for i, a := range cc.Args { // arg0, arg1, ...: the call's arguments (receiver excluded for interface calls)
+			env.vars[fmt.Sprintf("arg%d", i)] = f.sval(f.get(a), a.Type())
+		}
 		for i, cl := range ac.Asserts {
 			g := f.obligeClause("assert", fmt.Sprintf("%s#at:%s#%d.assert%d", shortFn(f.c.fn), ac.Callee, ac.Ordinal, i+1), env, cl, f.guard, f.pos(pos), false)
 			f.c.assume(implies(f.guard, g))
@@ -90,10 +93,8 @@ func (f *frame) pointEnv(heap *heapState) *specEnv {
 	at := f.cur
 	env.at = at
 	env.resolve = func(name string) (SVal, bool) {
-		if a, ok := f.debugAddr[name]; ok {
-			if have, ok := f.vals[a]; ok {
-				return f.sval(have, a.Type()), true
-			}
+		if v, ok := f.addrVar(name, heap); ok {
+			return v, true
 		}
 		if found, ok := f.lookupLocal(name, at); ok {
 			return f.sval(f.get(found), found.Type()), true
